@@ -2,6 +2,8 @@
 // from a foreign helper thread after a seeded delay, or from another task; every suspension must continue exactly once and
 // the enclosing wait must not return before.   input: seed P ntasks mode(0 mixed,1 in-callback,2 foreign,3 task,4 foreign after 1-40 ms) nested(0/1)
 #include "common.h"
+#include <algorithm>
+#include <functional>
 #include <random>
 #include <mutex>
 #include <condition_variable>
@@ -57,11 +59,62 @@ static void waiter_rounds(unsigned seed, int P, int n, bool isolated, Out& o) {
     o.word("NOTONCE"); o.put(notonce); o.word("TWICE"); o.put(0); o.word("EARLYWAIT"); o.put(early); o.word("TWOTHREADS"); o.put(bnotdone);
 }
 
+// mode 7: suspension at the OUTERMOST level of an external thread (not inside a task): K external threads enter arena(K+W+extra, K+W), each spawns a long task, suspends
+// (the callback publishes the suspend point) and keeps busy with its long task on the fresh stack; W more external threads block in task_group::wait on a deferred
+// task_handle; the main thread resumes the points in a seeded order with seeded delays while the owners are still busy, then lets the long tasks finish:
+// every suspended point must continue exactly once, on its OWN thread (an outermost stack belongs to its thread), within 6 s; then the waiters are released.
+// P (c[1]) = K, n (c[2]) = rounds, nested (c[4]) = extra worker slots.   output: NOTONCE (not exactly once / never) TWICE 0 EARLYWAIT (before resume) TWOTHREADS (continued on a foreign thread)
+static void outermost_rounds(unsigned seed, int K, int rounds, int extra, Out& o) {
+    std::mt19937 r(seed);
+    long notonce = 0, early = 0, foreign_thread = 0;
+    for (int round = 0; round < rounds; ++round) {
+        int W = 1 + (int)(r() % 2);
+        tbb::task_arena arena(K + W + extra, K + W);
+        std::vector<std::atomic<tbb::task::suspend_point>> sp(K); for (auto& x : sp) x = nullptr;
+        std::vector<std::atomic<int>> continued(K), lstarted(K), own(K), resumed(K), tdone(K); for (int k = 0; k < K; ++k) { continued[k] = 0; lstarted[k] = 0; own[k] = 0; resumed[k] = 0; tdone[k] = 0; }
+        std::atomic<int> release{0}, waiting{0}, wdone{0}; std::atomic<long> earlyc{0};
+        std::vector<tbb::task_handle> handles(W);
+        std::vector<std::thread> th;
+        for (int k = 0; k < K; ++k) th.emplace_back([&, k] {
+            std::thread::id me = std::this_thread::get_id();
+            arena.execute([&] {
+                tbb::task_group tg;
+                tg.run([&, k] { lstarted[k] = 1; while (!release.load()) std::this_thread::yield(); });
+                tbb::task::suspend([&](tbb::task::suspend_point p) { sp[k] = p; });
+                if (!resumed[k].load()) earlyc++;
+                if (std::this_thread::get_id() == me) own[k] = 1;
+                ++continued[k];
+                tg.wait();
+            });
+            tdone[k] = 1;
+        });
+        auto wait_ms = [&](std::function<bool()> pr, int ms) { for (int i = 0; i < ms * 10 && !pr(); ++i) std::this_thread::sleep_for(std::chrono::microseconds(100)); return pr(); };
+        bool ok = wait_ms([&] { for (int k = 0; k < K; ++k) if (sp[k].load() == nullptr) return false; return true; }, 10000);
+        for (int w = 0; w < W; ++w) th.emplace_back([&, w] { arena.execute([&] { tbb::task_group tg2; handles[w] = tg2.defer([] {}); waiting++; tg2.wait(); }); wdone++; });
+        ok = ok && wait_ms([&] { return waiting.load() == W; }, 10000);
+        std::this_thread::sleep_for(std::chrono::milliseconds(5 + r() % 30));
+        std::vector<int> order(K); for (int k = 0; k < K; ++k) order[k] = k; std::shuffle(order.begin(), order.end(), r);
+        if (ok) for (int k : order) { resumed[k] = 1; tbb::task::resume(sp[k].load()); if (r() % 2) std::this_thread::sleep_for(std::chrono::milliseconds(r() % 40)); }
+        std::this_thread::sleep_for(std::chrono::milliseconds(r() % 200));
+        release = 1;
+        bool all = ok && wait_ms([&] { for (int k = 0; k < K; ++k) if (!continued[k].load()) return false; return true; }, 6000);
+        if (!all) { notonce++; o.word("NOTONCE"); o.put(notonce); o.word("TWICE"); o.put(0); o.word("EARLYWAIT"); o.put(earlyc.load()); o.word("TWOTHREADS"); o.put(0); o.flush(); std::_Exit(0); }
+        wait_ms([&] { for (int k = 0; k < K; ++k) if (!tdone[k].load()) return false; return true; }, 6000);
+        for (int k = 0; k < K; ++k) { if (continued[k] != 1) notonce++; if (!own[k]) foreign_thread++; }
+        early += earlyc.load();
+        for (auto& h : handles) h = tbb::task_handle{};
+        wait_ms([&] { return wdone.load() == W; }, 6000);
+        for (auto& x : th) x.join();
+    }
+    o.word("NOTONCE"); o.put(notonce); o.word("TWICE"); o.put(0); o.word("EARLYWAIT"); o.put(early); o.word("TWOTHREADS"); o.put(foreign_thread);
+}
+
 int main() {
     std::vector<i128> c; Out o; Watchdog wd(30.0);
     while (read_case(c)) {
         unsigned seed = (unsigned)c[0]; int P = (int)c[1]; int n = (int)c[2]; int mode = (int)c[3]; bool nested = c[4] != 0;
         if (mode == 5 || mode == 6) { wd.arm(&o); waiter_rounds(seed, P, n, mode == 6, o); wd.disarm(); o.flush(); continue; }
+        if (mode == 7) { outermost_rounds(seed, P, n, nested ? 2 : 0, o); o.flush(); continue; }
         std::vector<std::atomic<int>> cont(2 * n); for (auto& x : cont) x = 0;
         std::atomic<long> early{0}, two_threads{0}, other_work{0};
         std::vector<std::atomic<int>> running(2 * n); for (auto& x : running) x = 0;
